@@ -15,6 +15,15 @@ def step15 (d : Nuts.Drv.Proto.DSt) (j : Json) : Nuts.Drv.Proto.DSt × List Stri
     match Nuts.C15.offloadedCertificate vals with
     | some o => (d, [s!"offload cert={o}"])
     | none => (d, ["offload refused"])
+  | "offloadseq" =>
+    let hv : String → Nuts.C15.HeaderVal := fun x => match x with
+      | "victim" => .cert "victim.example.org" | "proxy" => .cert "attacker.example" | "third" => .cert "third.example" | "two-in-one" => .many | _ => .garbage
+    let streams : List (List Nuts.C15.HeaderVal) := (jArr j "streams").map (fun a => match a with
+      | .arr xs => xs.toList.map (fun x => hv (x.getStr?.toOption.getD ""))
+      | _ => [])
+    let pre : Option String := if jStr j "pre" == "victim" then some "victim.example.org" else none
+    let seen := (Nuts.C15.interceptStreams pre streams).map (fun o => o.getD "refused")
+    (d, [s!"offloadseq [{String.intercalate " " seen}]"])
   | "createtx" =>
     let parts : List Nuts.C15.KeyRes := (jStrs j "parts").map (fun x => match x with
       | "ok" => .ok | "deactivated" => .deactivated | "badkey" => .badKey | _ => .notFound)
